@@ -21,7 +21,7 @@ KSEG = 6  # at most 6 '/' in a path => 7 segments
 def caps(tier):
     # path = capacity for which the sanitiser's contract is decided; uri/label are chosen so that every
     # argument uri_to_path can hand to the sanitiser fits in it (uri, or label + "/" + uri)
-    return dict(path=14, uri=14, label=5) if tier == "quick" else dict(path=18, uri=18, label=6)
+    return dict(path=14, uri=14, label=5) if tier == "quick" else dict(path=16, uri=16, label=5)
 
 
 def components_model(I, args, pc):
@@ -116,7 +116,7 @@ def make_queries(tier):
 
     def q_sanitize_idempotent(E):
         """sanitising an accepted path again returns it unchanged (canonical form)"""
-        p = E.str("path", C["path"], "printable")
+        p = E.str("path", min(C["path"], 10), "printable")  # two symbolic executions: the smaller stated bound of this query
         E.assume(max_occurrences(p, "/", KSEG - 1))
         r = E.call("sanitize_archive_path", p)
         out = r.payload["Ok"][0]
